@@ -136,6 +136,11 @@ func GenCid(r *Rand) []byte {
 // GenVal draws a data-model value.
 func GenVal(r *Rand, cfg GenCfg, depth int) Val {
 	k := r.Intn(12)
+	if depth == 0 && r.Chance(3, 4) {
+		k = 8 + r.Intn(4) // the root is usually a container
+	} else if depth == 1 && k < 8 && r.Chance(1, 3) {
+		k = 8 + r.Intn(4)
+	}
 	if depth >= cfg.MaxDepth && k >= 8 {
 		k = r.Intn(8)
 	}
